@@ -263,6 +263,18 @@ func postC17(res *RunResult) {
 			}
 		}
 	}
+	// every semicircle within 96 of every whole degree, with its printed form: values whose printed
+	// fraction rounds up into the next degree (carries in hand-written formatting), and the values
+	// just beyond
+	for d := int64(-180); d <= 180; d++ {
+		c := d * (1 << 31) / 180
+		for off := int64(-96); off <= 96; off++ {
+			if v := c + off; v >= math.MinInt32 && v <= math.MaxInt32 {
+				eval(int32(v), true)
+				evals++
+			}
+		}
+	}
 	res.Stats.Evaluations += int(evals)
 	res.Stats.Distinct += int(evals / 2)
 	res.Notes = append(res.Notes, fmt.Sprintf("Go-side oracle evaluated %d values", evals))
